@@ -11,7 +11,7 @@ from . import core
 from . import smt
 from .smt import (
     B, CLASSES, CLASS_FIELDS, CONTRACTS, Contract, EngineError, FIELD_TYPES, FRESH, Heap, I, PREDICATES, S,
-    SV, Schema, SeqV, VBool, VC, VInt, VNone, VRef, VStr, Val, bval, cls_of, fresh, is_bool, is_int,
+    PSeq, SV, Schema, SeqV, VBool, VC, VInt, VNone, VRef, VStr, Val, bval, cls_of, fresh, is_bool, is_int,
     is_none, is_ref, is_str, ival, lookup_field_type, mk_bool, mk_int, mk_none, mk_py, mk_ref, mk_seq,
     mk_str, mk_tuple, parse_ty, rval, sval,
 )
@@ -69,11 +69,11 @@ class FuncVerifier(Verifier):
             if v.kind == "py":
                 return mk_int(len(v.py))
             if v.kind == "seq":
-                return mk_int(z3.Length(v.items))
+                return mk_int(v.items.n)
             if v.kind == "ref" and v.ty and v.ty[0] in ("list", "tuple"):
-                return mk_int(z3.Length(st.heap.L[st.regref(rval(v.v))]))
+                return mk_int(st.heap.LN[st.regref(rval(v.v))])
             if st.spec:
-                return mk_int(z3.If(is_str(v.v), z3.Length(sval(v.v)), z3.Length(st.heap.L[st.regref(rval(v.v))])))
+                return mk_int(z3.If(is_str(v.v), z3.Length(sval(v.v)), st.heap.LN[st.regref(rval(v.v))]))
             raise EngineError(f"len of {v} at line {node.lineno}")
         if name == "isinstance":
             v = self.ev(node.args[0], st)
@@ -133,7 +133,7 @@ class FuncVerifier(Verifier):
         if name == "tuple" and len(node.args) == 1:
             v = self.ev(node.args[0], st)
             r = self.alloc(st, "tuple")
-            st.heap.L = z3.Store(st.heap.L, r, self.as_seq(st, v))
+            st.heap.set_lseq(r, self.as_seq(st, v))
             ety = v.ty[1] if v.ty and v.ty[0] == "list" else ("any",)
             return mk_ref(r, ("list", ety))  # immutable sequence: modelled like a list that nobody mutates
         if name == "dict" and not node.args:
@@ -211,32 +211,35 @@ class FuncVerifier(Verifier):
             raise EngineError(f"str.{name}")
         r = st.regref(rval(obj.v))
         if obj.ty[0] == "list":
-            seq = st.heap.L[r]
+            seq = st.heap.lseq(r)
             ety = obj.ty[1]
+            st.pc.append(seq.n >= 0)
             if name == "append":
                 x = self.to_val(st, args[0])
                 self.check_elem(st, x, ety, node)
-                st.heap.L = z3.Store(st.heap.L, r, z3.Concat(seq, z3.Unit(x)))
+                st.reg(seq.n)
+                st.heap.set_lseq(r, seq.append(x))
                 return mk_none()
             if name == "insert":
                 x = self.to_val(st, args[1])
                 self.check_elem(st, x, ety, node)
                 i = z3.simplify(ival(args[0].v))
                 if z3.is_int_value(i) and i.as_long() == 0:
-                    st.heap.L = z3.Store(st.heap.L, r, z3.Concat(z3.Unit(x), seq))
+                    st.heap.set_lseq(r, self.seq_concat(st, PSeq.empty().append(x), seq))
                     return mk_none()
                 raise EngineError("list.insert at non-zero index")
             if name == "extend":
                 other = self.as_seq(st, args[0])
-                st.heap.L = z3.Store(st.heap.L, r, z3.Concat(seq, other))
+                st.heap.set_lseq(r, self.seq_concat(st, seq, other))
                 return mk_none()
             if name == "pop" and not args:
-                n = z3.Length(seq)
+                n = seq.n
                 self.oblige(st, n > 0, "rte-IndexError", node, "pop")
                 st.assume(n > 0)
-                last = seq[n - 1]
+                last = seq.at(n - 1)
                 st.reg(n - 1)
-                st.heap.L = z3.Store(st.heap.L, r, z3.Extract(seq, 0, n - 1))
+                st.ld_elem(r, n - 1)
+                st.heap.set_lseq(r, PSeq(seq.arr, n - 1))
                 v = self.assume_type(st, last, ety)
                 return v
             raise EngineError(f"list.{name}")
@@ -362,6 +365,8 @@ class FuncVerifier(Verifier):
 
     def spec_view(self, st: State, locals_: Dict[str, SV], old: Optional[State], ghost=None) -> State:
         v = State.__new__(State)
+        v.events = st.events
+        v.loads = st.loads
         v.locals = locals_
         v.heap = st.heap
         v.pc = st.pc
@@ -422,6 +427,7 @@ class FuncVerifier(Verifier):
             st.pc.append(a2 >= st.heap.A)
             st.heap.A = a2
         self.havoc(st, con, bound, pre)
+        st.snap()
         res_t = fresh("res", Val)
         res = self.assume_type(st, res_t, con.returns)
         st.assume(z3.Implies(is_ref(res_t), rval(res_t) < st.heap.A))
@@ -465,7 +471,8 @@ class FuncVerifier(Verifier):
             st.heap.fields[f] = new
             return
         if loc == "lists:*":
-            st.heap.L = fresh("L", st.heap.L.sort())
+            st.heap.LA = fresh("LA", st.heap.LA.sort())
+            st.heap.LN = fresh("LN", st.heap.LN.sort())
             return
         if loc == "dicts:*":
             st.heap.DK = fresh("DK", st.heap.DK.sort())
@@ -475,7 +482,9 @@ class FuncVerifier(Verifier):
         if isinstance(e, ast.Call) and isinstance(e.func, ast.Name) and e.func.id == "elems":
             o = self.ev(e.args[0], ctx)
             r = rval(o.v)
-            st.heap.L = z3.Store(st.heap.L, r, fresh("seq", SeqV))
+            nn = fresh("len", I)
+            st.pc.append(nn >= 0)
+            st.heap.set_lseq(r, PSeq(fresh("seq", smt.ArrV), nn))
             return
         if isinstance(e, ast.Call) and isinstance(e.func, ast.Name) and e.func.id == "items":
             o = self.ev(e.args[0], ctx)
@@ -532,7 +541,8 @@ class FuncVerifier(Verifier):
             extra.append(self.to_val(st, pv))
         for rd in reads:
             if rd == "L":
-                extra.append(st.heap.L)
+                extra.append(st.heap.LA)
+                extra.append(st.heap.LN)
             elif rd == "DK":
                 extra.append(st.heap.DK)
             elif rd == "DV":
@@ -542,7 +552,7 @@ class FuncVerifier(Verifier):
         doms = [z.sort() for z in zargs + extra]
         fn = z3.Function(f"ghost_{name}", *doms, sorts[ret])
         t = fn(*(zargs + extra))
-        return {"int": mk_int, "bool": mk_bool, "str": mk_str}.get(ret, lambda x: SV(x, None, None) if ret == "val" else mk_seq(x))(t)
+        return {"int": mk_int, "bool": mk_bool, "str": mk_str}.get(ret, lambda x: SV(x, None, None))(t)
 
     def coerce(self, st, a: SV, so: str):
         if so == "int":
@@ -552,7 +562,7 @@ class FuncVerifier(Verifier):
         if so == "str":
             return sval(a.v)
         if so == "seq":
-            return self.as_seq(st, a)
+            raise EngineError("sequence-sorted ghost argument")
         return self.to_val(st, a)
 
     def spec_call(self, node: ast.Call, st: State) -> SV:
@@ -591,7 +601,10 @@ class FuncVerifier(Verifier):
             return self.merge(st, c, self.ev(node.args[1], st), self.ev(node.args[2], st))
         if name == "elems":
             v = self.ev(node.args[0], st)
-            return mk_seq(self.as_seq(st, v), v.ty[1] if v.ty and v.ty[0] == "list" else None)
+            sq = mk_seq(self.as_seq(st, v), v.ty[1] if v.ty and v.ty[0] == "list" else None)
+            if v.kind in ("ref", None) and v.v is not None:
+                sq.py = rval(v.v)
+            return sq
         if name == "has":
             d = self.ev(node.args[0], st)
             k = self.ev(node.args[1], st)
@@ -694,8 +707,9 @@ class FuncVerifier(Verifier):
         sv.pc, sv.ctx, sv.idx, sv.schemas = [], [], {}, []
         sv.locals[var] = mk_int(t)
         body = self.truthy(sv, self.ev(lam.body, sv))
-        pre = list(guards) + list(sv.pc)
-        return z3.Implies(z3.And(pre), body) if pre else body
+        inst = z3.Implies(z3.And(guards), body) if guards else body
+        # facts produced while evaluating the body (heap well-formedness of loaded references) are true facts
+        return z3.And(list(sv.pc) + [inst]) if sv.pc else inst
 
     def _has_forall(self, node) -> bool:
         for n in ast.walk(node):
